@@ -84,12 +84,44 @@ def run(shard):
         if miss or extra:
             report("all nested", "all_code_data() yields %d, recursive co_consts walk finds %d; missing %s extra %s" % (
                 len(got_all), len(everything), [m.name for m in miss][:5], [e.name for e in extra][:5]))
+        # the same value held in other ways - an instance of a subclass, a copy, the JSON-loaded twin - is a CodeData too
+        if len(everything) > 1 and len(everything) <= 60:
+            import copy
+            import dataclasses as dc
+            Sub = holder.setdefault("Sub", type("SubCodeData", (CodeData,), {}))
+            mon.enabled = False
+            try:
+                others = []
+                for label, make in (("subclass instance built from the fields", lambda: Sub(**dict((f.name, getattr(cd, f.name)) for f in dc.fields(cd)))),
+                                    ("SubClass.from_code(code)", lambda: Sub.from_code(code)),
+                                    ("dataclasses.replace(cd)", lambda: dc.replace(cd)),
+                                    ("copy.copy(cd)", lambda: copy.copy(cd)),
+                                    ("copy.deepcopy(cd)", lambda: copy.deepcopy(cd)),
+                                    ("from_json_data(to_json_data(cd))", lambda: CodeData.from_json_data(cd.to_json_data()))):
+                    try:
+                        others.append((label, make()))
+                    except Exception as e:
+                        H.count("skipped:other_holder:" + type(e).__name__)
+                for label, v in others:
+                    H.count("checks:C14.other_holders")
+                    try:
+                        d2, a2 = list(v), list(v.all_code_data())
+                    except Exception as e:
+                        report("iteration raises", "%s: %s: %s" % (label, type(e).__name__, H.short(e, 200)))
+                        continue
+                    m1, e1 = _match(d2, got_direct)
+                    m2, e2 = _match(a2[1:], got_all[1:])
+                    if m1 or e1 or m2 or e2 or not a2 or a2[0] is not v:
+                        report("other holder", "%s: iter() yields %d (decoded object: %d), all_code_data() yields %d (decoded object: %d)" % (
+                            label, len(d2), len(got_direct), len(a2), len(got_all)))
+            finally:
+                mon.enabled = True
 
     holder["mon"] = None
 
     # drive() creates the monitor; we need a handle inside on_decoded, so install through a tiny shim
     import corpus
-    from code_data import _code_data
+    _code_data = H.lib("_code_data")
     state = {"case": None}
 
     def post(a, k, res, exc, depth, snap):
